@@ -36,10 +36,10 @@ CLAIMS["C02"] = dict(
 CLAIMS["C04"] = dict(
     text="The canonical encoding of each skeleton (symbolic contents) is parsed into a generic TLV tree and re-encoded with the freedoms BER/RFC 4511 permit (long-form lengths per node and globally, TRUE as a symbolic non-zero octet, explicit DEFAULT values, one unrecognised trailing element with symbolic tag/content after each extensible SEQUENCE); z3 proves the library decodes every variant to the original message.",
     ref="DESIGN.md 3/C04", technique="symbolic execution of the real decoder on re-encoded variants (SX) + z3 validity queries")
-CLAIMS["C08"] = dict(text='Inductive step on the real LDAPClient/LDAPServer objects (one public call with symbolic id / result code / drain amount from an arbitrary symbolic pre-state satisfying the representation invariant, which every real-mode replay reaches through public calls only) plus bounded model checking from fresh sessions: every call sequence of depth 2 incl. variants carrying a paged-results control (quick); depth 2+3 and depth 4 over the property's own operation alphabet (thorough); post-conditions come from an independent ghost model of the documented state machine and are z3 validity queries. Clauses checked here: state transition table, CLOSED absorbing (rejected, no bytes, no data accepted), bind refused while operations are outstanding, only bind traffic or terminations while BINDING, invariant preserved.', ref="DESIGN.md 3/C08-C12", technique="symbolic execution of real session calls from symbolic pre-states (one-step induction) + bounded model checking, z3 validity queries against a ghost state machine")
-CLAIMS["C09"] = dict(text='Inductive step on the real LDAPClient/LDAPServer objects (one public call with symbolic id / result code / drain amount from an arbitrary symbolic pre-state satisfying the representation invariant, which every real-mode replay reaches through public calls only) plus bounded model checking from fresh sessions: every call sequence of depth 2 incl. variants carrying a paged-results control (quick); depth 2+3 and depth 4 over the property's own operation alphabet (thorough); post-conditions come from an independent ghost model of the documented state machine and are z3 validity queries. Clauses checked here: returned id = old counter >= 1, counter +1, id decoded (reference decoder) from the emitted bytes equals the returned id, acceptance iff the id is in progress, searches retired only by done, unknown/retired id or request-type message => ProtocolError + CLOSED.', ref="DESIGN.md 3/C08-C12", technique="symbolic execution of real session calls from symbolic pre-states (one-step induction) + bounded model checking, z3 validity queries against a ghost state machine")
-CLAIMS["C10"] = dict(text='Inductive step on the real LDAPClient/LDAPServer objects (one public call with symbolic id / result code / drain amount from an arbitrary symbolic pre-state satisfying the representation invariant, which every real-mode replay reaches through public calls only) plus bounded model checking from fresh sessions: every call sequence of depth 2 incl. variants carrying a paged-results control (quick); depth 2+3 and depth 4 over the property's own operation alphabet (thorough); post-conditions come from an independent ghost model of the documented state machine and are z3 validity queries. Clauses checked here: a refused call leaves the outgoing stream untouched and raises only LDAPError; the server emits only for outstanding ids; final responses retire the request.', ref="DESIGN.md 3/C08-C12", technique="symbolic execution of real session calls from symbolic pre-states (one-step induction) + bounded model checking, z3 validity queries against a ghost state machine")
-CLAIMS["C12"] = dict(text='Inductive step on the real LDAPClient/LDAPServer objects (one public call with symbolic id / result code / drain amount from an arbitrary symbolic pre-state satisfying the representation invariant, which every real-mode replay reaches through public calls only) plus bounded model checking from fresh sessions: every call sequence of depth 2 incl. variants carrying a paged-results control (quick); depth 2+3 and depth 4 over the property's own operation alphabet (thorough); post-conditions come from an independent ghost model of the documented state machine and are z3 validity queries. Clauses checked here: data_to_send(a) returns x with x + rest == before for every int a or None and changes nothing else; every other call only appends; a successful send contributes exactly its own message, a delivery or a failed send contributes nothing; by induction the drained concatenation equals the concatenation of the successful sends.', ref="DESIGN.md 3/C08-C12", technique="symbolic execution of real session calls from symbolic pre-states (one-step induction) + bounded model checking, z3 validity queries against a ghost state machine")
+CLAIMS["C08"] = dict(text='Inductive step on the real LDAPClient/LDAPServer objects (one public call with symbolic id / result code / drain amount from an arbitrary symbolic pre-state satisfying the representation invariant, which every real-mode replay reaches through public calls only) plus bounded model checking from fresh sessions: every call sequence of depth 2 incl. variants carrying a paged-results control (quick); depth 2+3 and depth 4 over the operation alphabet of the property (thorough); post-conditions come from an independent ghost model of the documented state machine and are z3 validity queries. Clauses checked here: state transition table, CLOSED absorbing (rejected, no bytes, no data accepted), bind refused while operations are outstanding, only bind traffic or terminations while BINDING, invariant preserved.', ref="DESIGN.md 3/C08-C12", technique="symbolic execution of real session calls from symbolic pre-states (one-step induction) + bounded model checking, z3 validity queries against a ghost state machine")
+CLAIMS["C09"] = dict(text='Inductive step on the real LDAPClient/LDAPServer objects (one public call with symbolic id / result code / drain amount from an arbitrary symbolic pre-state satisfying the representation invariant, which every real-mode replay reaches through public calls only) plus bounded model checking from fresh sessions: every call sequence of depth 2 incl. variants carrying a paged-results control (quick); depth 2+3 and depth 4 over the operation alphabet of the property (thorough); post-conditions come from an independent ghost model of the documented state machine and are z3 validity queries. Clauses checked here: returned id = old counter >= 1, counter +1, id decoded (reference decoder) from the emitted bytes equals the returned id, acceptance iff the id is in progress, searches retired only by done, unknown/retired id or request-type message => ProtocolError + CLOSED.', ref="DESIGN.md 3/C08-C12", technique="symbolic execution of real session calls from symbolic pre-states (one-step induction) + bounded model checking, z3 validity queries against a ghost state machine")
+CLAIMS["C10"] = dict(text='Inductive step on the real LDAPClient/LDAPServer objects (one public call with symbolic id / result code / drain amount from an arbitrary symbolic pre-state satisfying the representation invariant, which every real-mode replay reaches through public calls only) plus bounded model checking from fresh sessions: every call sequence of depth 2 incl. variants carrying a paged-results control (quick); depth 2+3 and depth 4 over the operation alphabet of the property (thorough); post-conditions come from an independent ghost model of the documented state machine and are z3 validity queries. Clauses checked here: a refused call leaves the outgoing stream untouched and raises only LDAPError; the server emits only for outstanding ids; final responses retire the request.', ref="DESIGN.md 3/C08-C12", technique="symbolic execution of real session calls from symbolic pre-states (one-step induction) + bounded model checking, z3 validity queries against a ghost state machine")
+CLAIMS["C12"] = dict(text='Inductive step on the real LDAPClient/LDAPServer objects (one public call with symbolic id / result code / drain amount from an arbitrary symbolic pre-state satisfying the representation invariant, which every real-mode replay reaches through public calls only) plus bounded model checking from fresh sessions: every call sequence of depth 2 incl. variants carrying a paged-results control (quick); depth 2+3 and depth 4 over the operation alphabet of the property (thorough); post-conditions come from an independent ghost model of the documented state machine and are z3 validity queries. Clauses checked here: data_to_send(a) returns x with x + rest == before for every int a or None and changes nothing else; every other call only appends; a successful send contributes exactly its own message, a delivery or a failed send contributes nothing; by induction the drained concatenation equals the concatenation of the successful sends.', ref="DESIGN.md 3/C08-C12", technique="symbolic execution of real session calls from symbolic pre-states (one-step induction) + bounded model checking, z3 validity queries against a ghost state machine")
 CLAIMS["C18"] = dict(
     text="Every regular expression the current tree compiles (captured at import and call time) is translated to sre's backtracking automaton; a z3 Fixedpoint (Datalog) query over the product automaton decides exponential ambiguity with no bound on the pump length, and a positive is confirmed by timing the attack string on the real re before it is reported. The hand-written filter scanner is executed symbolically on every string up to the bound with structural progress obligations (each recursive call consumes >= 1, nested calls of the same function get strictly shorter intervals, sibling consumption ranges are disjoint and ordered), from which the O(n^2) bound follows by an induction argued in DESIGN.md.",
     ref="DESIGN.md 1.3, 3/C18", technique="regex -> backtracking automaton -> z3 Datalog fixpoint (no length bound) + symbolic execution (SX) of the recursive-descent scanner", engine="RX+SX")
